@@ -85,6 +85,22 @@ def main():
             s, dev = facade(sets["spc"])
             out.append(attempt("%s %s" % (which, label), "ValueError",
                                (lambda s=s, sl=sl: getattr(s, meth)(segment_descriptor_list=sl)), dev))
+    # 4b. a key that belongs to ANOTHER segment descriptor type (valid in a sibling layout, unknown in this one) is an unknown key too
+    import importlib
+    for which, meth, modname in (("xcopy4", "extendedcopy4", "scsi_cdb_extended_copy_spc4"), ("xcopy5", "extendedcopy5", "scsi_cdb_extended_copy_spc5")):
+        X = importlib.import_module("pyscsi.pyscsi." + modname).ExtendedCopy
+        lay = {0x00: X._segment_descriptor_bits_block_to_stream, 0x0B: X._segment_descriptor_bits_block_to_stream,
+               0x01: X._segment_descriptor_bits_stream_to_block, 0x0C: X._segment_descriptor_bits_stream_to_block,
+               0x02: X._segment_descriptor_bits_block_to_block, 0x0D: X._segment_descriptor_bits_block_to_block}
+        allkeys = sorted(set().union(*[set(v) for v in lay.values()]))
+        for code, table in sorted(lay.items()):
+            for k in allkeys:
+                if k in table:
+                    continue
+                s, dev = facade(sets["spc"])
+                sl = [{"descriptor_type_code": code, k: 1}]
+                out.append(attempt("%s segment type %#04x with key %s of another segment type" % (which, code, k), "ValueError",
+                                   (lambda s=s, sl=sl: getattr(s, meth)(segment_descriptor_list=sl)), dev))
     # 5. inconsistent iSCSI TransportIDs (REGISTER AND MOVE and REGISTER with SPEC_I_PT)
     ISCSI = 5
     bad_tids = [("session id without format", {"protocol_id": ISCSI, "iscsi_name": "iqn.x", "iscsi_initiator_session_id": "1234"}),
